@@ -76,15 +76,19 @@ Depth2 ==
   \cup {Tup(<<Uni(<<IntT, UA(1)>>), IntT>>), Tup(<<Tup(<<IntT>>), NoneT>>)}
   \cup {Inst("dict", <<Cl("str"), Inst("list", <<IntT>>)>>), Inst("set", <<Tup(<<IntT, UA(1)>>)>>)}
   \cup {Uni(<<Tup(<<IntT>>), UA(1)>>), Uni(<<NoneT, Tup(<<IntT, UA(1)>>)>>)}
-Universe == SetToSeq(Atoms \cup (IF Level >= 1 THEN Depth1 ELSE {}) \cup (IF Level >= 2 THEN Depth2 ELSE {}))
-UT == Universe
+UniverseAt(lv) == SetToSeq(Atoms \cup (IF lv >= 1 THEN Depth1 ELSE {}) \cup (IF lv >= 2 THEN Depth2 ELSE {}))
+UT == UniverseAt(Level)
 CS == SetToSeq(Classes)
 
 (* ------------------------------------------------------------ generators (C26) *)
-\* present after the module analysis: the constructors; added later by add_generator:
+\* present after the module analysis: the constructors and the module function m1;
+\* added later by add_generator: x1, xu, xa.  Only functions can change their return type.
 ExtraGens == {"x1", "xu", "xa"}
-InitRet == [g \in UserSet \cup {"object"} \cup ExtraGens |->
+FuncGens == ExtraGens \cup {"m1"}
+InitGens == UserSet \cup {"object", "m1"}
+InitRet == [g \in InitGens \cup ExtraGens |->
               CASE g = "x1" -> UA(1)                       \* a second generator for C1
+                [] g = "m1" -> UA(NUser)
                 [] g = "xu" -> Uni(<<UA(NUser - 1), UA(NUser)>>)
                 [] g = "xa" -> AnyT                        \* function without annotation
                 [] OTHER -> Cl(g)]
@@ -137,7 +141,7 @@ EvaluatedPrefix(bs, stop) ==
   IN IF hit = {} THEN DOMAIN bs ELSE 1..(CHOOSE i \in hit : \A j \in hit : i <= j)
 
 RECURSIVE Val(_, _, _), Raw(_, _, _)
-\* answer of a cached call in state st = [h, reg]: the memo entry if there is one, else a
+\* answer of a cached call in state st = [h, reg, prov]: the memo entry if there is one, else a
 \* computation whose nested cached calls go through the memo as well
 Val(st, m, k) == IF k \in DOMAIN m THEN m[k] ELSE Raw(st, m, k)
 Raw(st, m, k) ==
@@ -159,7 +163,7 @@ Raw(st, m, k) ==
     [] k.q = "get_superclasses" -> Ans(FALSE, 0, {c \in UserSet : k.l.c \in st.h.desc[c]})
     [] k.q = "for_type" -> Ans(FALSE, 0, IF k.l \in DOMAIN st.reg THEN st.reg[k.l] ELSE {})
     [] k.q = "offered" ->
-         IF Prov = "G"
+         IF st.prov = "G"
          THEN Ans(FALSE, 0, UNION {
                 LET d == Val(st, m, Key("subtype_distance", k.l, gt, 0)).n
                 IN IF d = Undef THEN {} ELSE Val(st, m, Key("for_type", gt, NoT, d)).s
@@ -183,7 +187,7 @@ Fill(st, m, k) ==
       [] k.q = "subtype_distance" /\ k.r.k = "union" ->
            UNION {Fill(st, m, Key("subtype_distance", k.l, k.r.a[i], 0)) : i \in DOMAIN k.r.a}
       [] k.q = "offered" ->
-           IF Prov = "G"
+           IF st.prov = "G"
            THEN UNION {
                   LET d == Val(st, m, Key("subtype_distance", k.l, gt, 0)).n
                   IN Fill(st, m, Key("subtype_distance", k.l, gt, 0)) \cup
@@ -198,6 +202,12 @@ AfterQuery(st, m, k) ==
 Without(m, kinds) == [x \in {y \in DOMAIN m : y.q \notin kinds} |-> m[x]]
 EmptyMemo == [x \in {} |-> Ans(FALSE, 0, {})]
 
+\* effect of the three updates on the caches
+MemoAfterAddEdge(m) == IF "NoClearOnAddEdge" \in Deviations THEN m ELSE EmptyMemo
+MemoAfterAddGenerator(m) ==
+  IF "NoClearOnAddGenerator" \in Deviations THEN m ELSE Without(m, ProviderQueries)
+MemoAfterUpdateReturnType(m) == Without(m, ProviderQueries)     \* clear_generator_cache()
+
 Queries ==
   {Key(q, Cl(x), Cl(y), 0) : q \in {"is_subclass", "is_subtype", "is_maybe_subtype", "subtype_distance"},
                               x \in UserSet, y \in UserSet}
@@ -207,7 +217,7 @@ Queries ==
 NoH == [cls |-> {}]
 NoRel == [sub |-> <<>>]
 Init == /\ hier = <<>> /\ extra = {} /\ h = NoH /\ rel = NoRel
-        /\ gens = UserSet \cup {"object"}
+        /\ gens = InitGens
         /\ ret = InitRet
         /\ memo = EmptyMemo
         /\ steps = 0
@@ -229,26 +239,26 @@ AddSubclassEdge(sup, sub) ==
   /\ LET ex == extra \cup {<<sup, sub>>}
          hh == HOf(hier, ex)
      IN extra' = ex /\ h' = hh /\ rel' = RelOf(hh, hier, ex)
-  /\ memo' = IF "NoClearOnAddEdge" \in Deviations THEN memo ELSE EmptyMemo
+  /\ memo' = MemoAfterAddEdge(memo)
   /\ UNCHANGED <<hier, gens, ret>>
 
 \* ModuleTestCluster.add_generator(g)
 AddGenerator(g) ==
   /\ g \notin gens
   /\ gens' = gens \cup {g}
-  /\ memo' = IF "NoClearOnAddGenerator" \in Deviations THEN memo ELSE Without(memo, ProviderQueries)
+  /\ memo' = MemoAfterAddGenerator(memo)
   /\ UNCHANGED <<hier, extra, h, rel, ret>>
 
 \* ModuleTestCluster.update_return_type(g, Instance(c)): clear_generator_cache() is called
 UpdateReturnType(g, c) ==
-  /\ g \in gens
+  /\ g \in gens \cap FuncGens
   /\ LET new == AddOrMakeUnion(ret[g], c) IN
        /\ new # ret[g]
        /\ ret' = [ret EXCEPT ![g] = new]
-  /\ memo' = Without(memo, ProviderQueries)
+  /\ memo' = MemoAfterUpdateReturnType(memo)
   /\ UNCHANGED <<hier, extra, h, rel, gens>>
 
-Query(k) == /\ memo' = AfterQuery([h |-> h, reg |-> Reg], memo, k)
+Query(k) == /\ memo' = AfterQuery([h |-> h, reg |-> Reg, prov |-> Prov], memo, k)
             /\ UNCHANGED <<hier, extra, h, rel, gens, ret>>
 
 Next == \/ \E ch \in HierChoices(Len(hier) + 1) : Declare(ch)
@@ -285,8 +295,26 @@ OfferedCompatible == Complete => \A i \in DOMAIN UT : \A g \in OffG(i) \cup OffR
 ProvidersAgree == Complete => \A i \in DOMAIN UT : OffG(i) = OffR(i)
 \* every memoised answer is what a fresh TypeSystem / provider computes on the current graph
 CacheCoherent ==
-  Complete => LET st == [h |-> h, reg |-> Reg]
+  Complete => LET st == [h |-> h, reg |-> Reg, prov |-> Prov]
               IN \A k \in DOMAIN memo : memo[k] = Raw(st, EmptyMemo, k)
+
+(* all laws by name: the deviation runs report which of them fail *)
+LawNames == {"Refl", "Trans", "AnyTop", "UnionAll", "InstFollowsClass", "AgreesWithIssubclass",
+             "DistDefinedOnlyWhenMaybeSub", "DistZeroOnIdentity", "DistDefinedIffMaybeSub",
+             "StrictImpliesMaybe", "OfferedCompatible", "ProvidersAgree", "CacheCoherent"}
+Holds(n) ==
+  CASE n = "Refl" -> Refl [] n = "Trans" -> Trans [] n = "AnyTop" -> AnyTop
+    [] n = "UnionAll" -> UnionAll [] n = "InstFollowsClass" -> InstFollowsClass
+    [] n = "AgreesWithIssubclass" -> AgreesWithIssubclass
+    [] n = "DistDefinedOnlyWhenMaybeSub" -> DistDefinedOnlyWhenMaybeSub
+    [] n = "DistZeroOnIdentity" -> DistZeroOnIdentity
+    [] n = "DistDefinedIffMaybeSub" -> DistDefinedIffMaybeSub
+    [] n = "StrictImpliesMaybe" -> StrictImpliesMaybe
+    [] n = "OfferedCompatible" -> OfferedCompatible [] n = "ProvidersAgree" -> ProvidersAgree
+    [] n = "CacheCoherent" -> CacheCoherent
+ViolatedLaws == {n \in LawNames : ~Holds(n)}
+\* always true; prints the violated laws of every complete state that violates one
+ReportViolated == (Complete /\ ViolatedLaws # {}) => PrintT(<<"VIOLATED", ViolatedLaws>>)
 
 TypeOK == /\ gens \subseteq DOMAIN ret
           /\ steps \in 0..MaxSteps
